@@ -56,6 +56,13 @@ ALIAS_UNPROVED_ARGS = {
         'calls rbasex_transform with **transform_options (may contain `weights`): same reason'),
 }
 
+# Public methods for which `safe_method` is not established although no defect exists.
+ALIAS_METHOD_UNPROVED = {
+    'abel.tools.polynomial.ApproxGaussian.scaled':
+        'the tuples of self.ranges are unpacked into numbers (r, s) that the translator cannot tell from arrays: '
+        '`s *= sigma` rebinds a float, the returned list holds new lists and floats',
+}
+
 _TO = "verbose=False, basis_dir=None"
 
 SPECS = {
@@ -469,6 +476,84 @@ _MORE = {
 #  of the alias programs: `row, col = origin; row += height` rebinds a number)
 for _k, _v in _MORE.items():
     SPECS[_k]['calls'] = list(SPECS[_k]['calls']) + _v
+
+
+# ---------------------------------------------------------------------------
+# Third round: REUSED OBJECTS.  For every public class: `ctor` builds one object
+# (evaluated once), every `use` is evaluated several times on that same object
+# `obj` (see check_object in _alias_harness.py).  Fail closed: every public
+# method of the class and of the classes of the objects it hands out must occur
+# in some use (tools/props/C18.py checks this by introspection); properties and
+# plain attributes are the data of the object itself and are reached by the
+# attribute walk of the results.
+_RES = ("(lambda r: (r, r.cos(), r.rcos(), r.cossin(), r.rcossin(), r.harmonics(), r.rharmonics(), r.Ibeta(), "
+        "r.rIbeta(), r.Ibeta(window=3), r.rIbeta(window=3)))")
+_RESULT_USES = ["obj.cos()", "obj.rcos()", "obj.cossin()", "obj.rcossin()", "obj.harmonics()", "obj.rharmonics()",
+                "obj.Ibeta()", "obj.rIbeta()", "obj.Ibeta(window=3)", "(obj.r, obj.cn, obj.valid) and obj.rIbeta(window=3)"]
+_RC = "abel.tools.polynomial.rcos(shape=(15, 17))"
+OBJECTS = {
+    'abel.tools.vmi.Distributions': [
+        dict(ctor="abel.tools.vmi.Distributions('cc', order=2)",
+             uses=[_RES + "(obj(A.img(21, 23)))", _RES + "(obj.image(A.img(21, 23)))"]),
+        dict(ctor="abel.tools.vmi.Distributions((9, 10), rmax='all', order=4, use_sin=False, "
+                  "weights=A.rand(21, 23, label='weights', lo=0.5, hi=1.5), method='nearest')",
+             uses=[_RES + "(obj(A.img(21, 23)))"]),
+        dict(ctor="abel.tools.vmi.Distributions('ll', rmax='MAX', order=1, odd=True, method='remap')",
+             uses=[_RES + "(obj.image(A.img(21, 23)))"]),
+        # the Results objects handed out, reused themselves
+        dict(ctor="abel.tools.vmi.Distributions('cc', order=2)(A.img(21, 23))", uses=_RESULT_USES),
+        dict(ctor="abel.tools.vmi.Distributions('cc', order=3, odd=True)(A.img(21, 23))", uses=_RESULT_USES),
+        dict(ctor="abel.rbasex.rbasex_transform(A.img(21, 21), order=2)[1]", uses=_RESULT_USES),
+        dict(ctor="abel.transform.Transform(A.img(21, 21), method='rbasex').distr", uses=_RESULT_USES[:6]),
+    ],
+    'abel.tools.polynomial.BasePolynomial': [        # (the base class has no data of its own: a Polynomial through the base methods)
+        dict(ctor="abel.tools.polynomial.Polynomial(A.arange(15, label='r'), 2.0, 9.0, A.arr([1.0, -0.5, 0.25], label='c'))",
+             uses=["abel.tools.polynomial.BasePolynomial.copy(obj)", "abel.tools.polynomial.BasePolynomial.__mul__(obj, 2.0)",
+                   "obj * 2.0", "obj / 4.0"])],
+    'abel.tools.polynomial.Polynomial': [
+        dict(ctor="abel.tools.polynomial.Polynomial(A.arange(15, label='r'), 2.0, 9.0, A.arr([1.0, -0.5, 0.25], label='c'), r_0=1.0, s=2.0)",
+             uses=["obj.copy()", "obj * 2.0", "3.0 * obj", "obj / 4.0", "(lambda q: q.__imul__(2.0))(obj.copy())",
+                   "(lambda q: q.__itruediv__(2.0))(obj.copy())"])],
+    'abel.tools.polynomial.PiecewisePolynomial': [
+        dict(ctor="abel.tools.polynomial.PiecewisePolynomial(A.arange(15, label='r'), [(1.0, 4.0, A.arr([1.0, 0.5], label='c0'), 0.5, 2.0), "
+                  "(4.0, 8.0, [3.0, -0.25, 0.01])])",
+             uses=["obj.copy()", "obj * 2.0", "obj / 4.0", "(lambda q: q.__imul__(2.0))(obj.copy())"])],
+    'abel.tools.polynomial.SPolynomial': [
+        dict(ctor="(lambda rc: abel.tools.polynomial.SPolynomial(A.arr(rc[0], label='r'), A.arr(rc[1], label='cos'), 2.0, 7.0, "
+                  "A.arr([[1.0, 0.0, 0.5], [0.0, 0.1, 0.0]], label='c'), s=1.5))(%s)" % _RC,
+             uses=["obj.copy()", "obj * 2.0", "obj / 4.0"])],
+    'abel.tools.polynomial.PiecewiseSPolynomial': [
+        dict(ctor="(lambda rc: abel.tools.polynomial.PiecewiseSPolynomial(A.arr(rc[0], label='r'), A.arr(rc[1], label='cos'), "
+                  "[(1.0, 4.0, A.arr([[1.0, 0.5], [0.0, 0.2]], label='c0')), (4.0, 7.0, [[3.0, -0.25, 0.01]], 1.0, 2.0)]))(%s)" % _RC,
+             uses=["obj.copy()", "obj * 2.0", "obj / 4.0"])],
+    'abel.tools.polynomial.Angular': [
+        dict(ctor="abel.tools.polynomial.Angular(A.arr([1.0, 0.0, 0.5], label='c'))",
+             uses=["obj + obj", "obj - abel.tools.polynomial.Angular.cos(2)", "obj * obj", "obj * 2.0", "2.0 * obj", "obj / 2.0",
+                   "obj * abel.tools.polynomial.Angular.sin(2)", "abel.tools.polynomial.Angular.cossin(1, 2) + obj",
+                   "abel.tools.polynomial.Angular.legendre(A.arr([1.0, 0.0, 0.5], label='l')) * obj", "repr(obj)"])],
+    'abel.tools.polynomial.ApproxGaussian': [
+        dict(ctor="abel.tools.polynomial.ApproxGaussian(0.01)", uses=["obj.scaled(2.0, 1.0, 3.0)", "obj.scaled()"])],
+    'abel.tools.analytical.BaseAnalytical': [],
+    'abel.tools.analytical.StepAnalytical': [
+        dict(ctor="abel.tools.analytical.StepAnalytical(21, 10.0, 2.0, 6.0, symmetric=False)",
+             uses=["obj.abel_step_analytical(A.arange(12, label='r'), 1.0, 3.0, 8.0)",
+                   "obj.sym_abel_step_1d(A.arange(12, label='r', start=-6), 1.0, 0.0, 4.0)"])],
+    'abel.tools.analytical.Polynomial': [],
+    'abel.tools.analytical.PiecewisePolynomial': [],
+    'abel.tools.analytical.GaussianAnalytical': [],
+    'abel.tools.analytical.TransformPair': [
+        dict(ctor="abel.tools.analytical.TransformPair(21, profile=3)", uses=["obj.profile(A.arange(20, label='r', step=0.05, start=0.05))"])],
+    'abel.tools.analytical.SampleImage': [
+        dict(ctor="abel.tools.analytical.SampleImage(31, name='dribinski')", uses=["obj.transform()", "obj.transform(tol=0.01)"]),
+        dict(ctor="abel.tools.analytical.SampleImage(31, name='Ominus', sigma=2.0)", uses=["obj.transform()"]),
+        dict(ctor="abel.tools.analytical.SampleImage(31, name='gaussian')", uses=["obj.transform()"])],
+    'abel.transform.Transform': [],      # no call-like methods: everything happens in the constructor
+    # a function object handed out by a public function, reused
+    'abel.tools.circularize.circularize_image': [
+        dict(ctor="abel.tools.circularize.circularize_image(A.img(31, 31), method='argmax', dr=0.5, dt=0.5, return_correction=True)",
+             uses=["obj[3](A.arange(9, label='angle', step=0.7, start=-2.8))",
+                   "abel.tools.circularize.circularize(A.img(31, 31), obj[3], ref_angle=0.3)"])],
+}
 
 
 def public_callables():
